@@ -1,7 +1,7 @@
 (* The chain-structure invariant of Proofs/ChainInv.v is established by genesis and preserved by every delivery
    (accepted on the main chain, accepted on a side chain with or without reorganisation, refused, crashed), hence it
-   holds after every delivery sequence shorter than 2^64 - 1.  Walking [prev_hash] from the tip visits exactly the
-   entries of the height index, highest first. *)
+   holds after every delivery sequence shorter than 2^64 - 1 (run_CInv).  Walking [prev_hash] from the tip visits exactly
+   the entries of the height index, highest first (walk_index).  Final theorems: Proofs/ChainHeights.v. *)
 From Virel Require Import Lib.Config Lib.U64 Lib.AMap Model.Ledger Model.Node Proofs.AMapLemmas Proofs.Conservation
   Spec.Chain Proofs.NodeBasics Proofs.ForkChoice Proofs.Restart Proofs.ChainInv.
 Open Scope N_scope.
@@ -19,21 +19,18 @@ Variable gh : N.
 
 Notation CInv := (CInv gh).
 
-(* a new tip entry is the only one that can be heavier than the main tip *)
+(* the tip entries after an alternative block: the old ones (possibly without the parent's) and the new block's own *)
 Lemma alt_tips_cases n b k tp :
   In (k, tp) (match nget (tips n) (prev_hash b) with
-              | Some t => nset (tips n) (prev_hash b) (mktip (b_hash b) (wadd (t_height t) 1) (b_cd b))
+              | Some t => if t_hash t =? prev_hash b
+                          then nset (ndel (tips n) (prev_hash b)) (b_hash b) (mktip (b_hash b) (b_height b) (b_cd b))
+                          else nset (tips n) (b_hash b) (mktip (b_hash b) (b_height b) (b_cd b))
               | None => nset (tips n) (b_hash b) (mktip (b_hash b) (b_height b) (b_cd b))
               end) ->
-  (t_hash tp = b_hash b /\ t_cd tp = b_cd b /\
-   ((exists t, nget (tips n) (prev_hash b) = Some t /\ k = prev_hash b /\ t_height tp = wadd (t_height t) 1) \/
-    (nget (tips n) (prev_hash b) = None /\ k = b_hash b /\ t_height tp = b_height b))) \/
-  In (k, tp) (tips n).
+  (k = b_hash b /\ tp = mktip (b_hash b) (b_height b) (b_cd b)) \/ In (k, tp) (tips n).
 Proof.
-  destruct (nget (tips n) (prev_hash b)) as [t|] eqn:Et; intros Hin; apply in_nset in Hin;
-    (destruct Hin as [[= -> ->]|Hin]; [left|right; exact Hin]); cbn [t_hash t_cd t_height].
-  - split; [reflexivity|]. split; [reflexivity|]. left. exists t. repeat split.
-  - split; [reflexivity|]. split; [reflexivity|]. right. repeat split.
+  destruct (nget (tips n) (prev_hash b)) as [t|]; [destruct (t_hash t =? prev_hash b)|]; intros Hin; apply in_nset in Hin;
+    (destruct Hin as [[= -> ->]|Hin]; [left; split; reflexivity|right; try apply in_ndel in Hin; exact Hin]).
 Qed.
 
 Lemma add_block_CInv n b n' amb :
@@ -67,8 +64,8 @@ Proof.
     + destruct H as (Fb & HT' & _). split; [rewrite Fb; exact HB1|exact HT'].
     + exact HB1.
     + apply TInv_insert_block; assumption.
-    + intros k tp Hin Hlt. apply alt_tips_cases in Hin. destruct Hin as [(Eh & _)|Hin].
-      * rewrite Eh. intros Egh. destruct HB as (_ & (g & Hg & _) & _). rewrite Egh in Hnew. congruence.
+    + intros k tp Hin Hlt. apply alt_tips_cases in Hin. destruct Hin as [(_ & ->)|Hin].
+      * cbn [t_hash]. intros Egh. destruct HB as (_ & (g & Hg & _) & _). rewrite Egh in Hnew. congruence.
       * exfalso. destruct (Htips k tp Hin) as (tb & Htb & Hcd). pose proof (Hmax _ _ Htb). lia.
 Qed.
 
@@ -144,43 +141,6 @@ Proof.
       split; [reflexivity|]. split; [exact Hgg|]. split; [exact Hg0|]. intros Hlt. lia.
 Qed.
 
-Lemma CInv_chain_structure gh n : CInv gh n -> chain_structure gh n.
-Proof.
-  intros ((Hk & Hg & Hp & _) & (_ & t & Ht & Htop & Habove & H0 & Hch)). unfold chain_structure, get_block, get_topo.
-  split; [exact Hk|]. split; [exact Hg|]. split; [exact Hp|].
-  exists t. repeat split; assumption.
-Qed.
-
-Theorem chain_structure_always g n0 ops :
-  node0 cfg genesis_addr g = Ok n0 -> b_height g = 0 -> b_cd g = b_diff g ->
-  N.of_nat (length ops) < two64 - 1 ->
-  chain_structure (b_hash g) (run cfg genesis_addr team_key n0 ops).
-Proof.
-  intros H0 Hg0 Hcd Hlen. apply CInv_chain_structure.
-  apply (run_CInv cfg genesis_addr team_key (b_hash g) ops n0).
-  - eapply node0_CInv; eassumption.
-  - eapply node0_inv; eassumption.
-  - assert (Hl : length (blocks n0) = 1%nat).
-    { unfold node0 in H0. apply apply_block_node_eq in H0. destruct H0 as (l & ->). reflexivity. }
-    rewrite Hl. unfold two64 in *. lia.
-Qed.
-
-(* the height-index clauses alone (property C17) *)
-Theorem height_index_is_main_chain g n0 ops :
-  node0 cfg genesis_addr g = Ok n0 -> b_height g = 0 -> b_cd g = b_diff g ->
-  N.of_nat (length ops) < two64 - 1 ->
-  let n := run cfg genesis_addr team_key n0 ops in
-  exists t, get_block n (top n) = Some t /\
-     get_topo n (b_height t) = Some (top n) /\
-     get_topo n 0 = Some (b_hash g) /\
-     (forall ht, b_height t < ht -> get_topo n ht = None) /\
-     (forall ht, ht <= b_height t ->
-        exists y yb, get_topo n ht = Some y /\ get_block n y = Some yb /\ b_height yb = ht /\
-                     (0 < ht -> get_topo n (ht - 1) = Some (prev_hash yb))).
-Proof.
-  intros H0 Hg0 Hcd Hlen n. destruct (chain_structure_always g n0 ops H0 Hg0 Hcd Hlen) as (_ & _ & _ & H). exact H.
-Qed.
-
 (* ---- (d) walking prev_hash from the tip visits the height index, highest entry first ---- *)
 Lemma walk_index gh bl tp x bx :
   TInv gh bl tp x -> nget bl x = Some bx ->
@@ -193,28 +153,6 @@ Proof.
   - destruct (Hch _ Hle) as (y' & yb & Hy' & Hyb & Hyh & Hyp). rewrite Hy in Hy'. injection Hy' as <-.
     rewrite Hy, Hyb. f_equal. apply IH; [lia|].
     replace (N.of_nat k) with (N.of_nat (S k) - 1) by lia. apply Hyp. lia.
-Qed.
-
-Theorem walk_from_top_is_index g n0 ops :
-  node0 cfg genesis_addr g = Ok n0 -> b_height g = 0 -> b_cd g = b_diff g ->
-  N.of_nat (length ops) < two64 - 1 ->
-  let n := run cfg genesis_addr team_key n0 ops in
-  exists t, get_block n (top n) = Some t /\
-    map (get_topo n) (heights_down (N.to_nat (b_height t))) = map Some (walk (blocks n) (N.to_nat (b_height t)) (top n)).
-Proof.
-  intros H0 Hg0 Hcd Hlen n.
-  assert (HC : CInv (b_hash g) n).
-  { apply (run_CInv cfg genesis_addr team_key (b_hash g) ops n0).
-    - eapply node0_CInv; eassumption.
-    - eapply node0_inv; eassumption.
-    - assert (Hl : length (blocks n0) = 1%nat).
-      { unfold node0 in H0. apply apply_block_node_eq in H0. destruct H0 as (l & ->). reflexivity. }
-      rewrite Hl. unfold two64 in *. lia. }
-  destruct HC as (HB & HT). pose proof HT as (_ & t & Ht & Htop & _).
-  exists t. split; [exact Ht|]. unfold get_topo.
-  apply (walk_index (b_hash g) _ _ (top n) t HT Ht).
-  - lia.
-  - rewrite N2Nat.id. exact Htop.
 Qed.
 
 End Genesis.
